@@ -29,7 +29,7 @@ func execKeys(c *ctx, in ev) []ev {
 		n := new(big.Int).SetBytes(gB(in, "n"))
 		e := int(new(big.Int).SetBytes(gB(in, "e")).Int64())
 		key := &rsa.PublicKey{N: n, E: e}
-		out := ev{"op": "Spki", "n": in["n"], "e": in["e"]}
+		out := ev{"op": "Spki", "n": in["n"], "e": in["e"], "wrapper_pss": B(nil), "wrapper_rsa": B(nil), "wrapper_ok": false}
 		var pss, rs []byte
 		var rsaErr error
 		var k1, k2 *rsa.PublicKey
@@ -37,6 +37,10 @@ func execKeys(c *ctx, in ev) []ev {
 		p := guard(func() {
 			pss, _ = util.MarshalTokenKeyPSSOID(key)
 			rs, rsaErr = util.MarshalTokenKeyRSAEncryptionOID(key)
+			// the selecting wrapper (beyond the listed properties): legacy = rsaEncryption form, otherwise RSASSA-PSS
+			w1, we1 := util.MarshalTokenKey(key, false)
+			w2, we2 := util.MarshalTokenKey(key, true)
+			out["wrapper_pss"], out["wrapper_rsa"], out["wrapper_ok"] = B(w1), B(w2), we1 == nil && (we2 == nil) == (rsaErr == nil)
 			k1, e1 = util.UnmarshalTokenKey(pss)
 			if rsaErr == nil {
 				k2, e2 = util.UnmarshalTokenKey(rs)
